@@ -24,6 +24,12 @@ FEA_NAME = re.compile(r"^[A-Za-z_][A-Za-z0-9_.]{0,62}$")
 def stem(seq, style):
     if style == "emoji_u":
         return "emoji_u" + "_".join("%04x" % c for c in seq)
+    if style == "pad8":  # U+0001F600 style: zero-padded to eight hex digits
+        return "emoji_u" + "_".join("%08x" % c for c in seq)
+    if style == "upper":
+        return "emoji_u" + "_".join("%04X" % c for c in seq)
+    if style == "bare_u":
+        return "u" + "_".join("%x" % c for c in seq)
     return "-".join("%04x" % c for c in seq)
 
 
@@ -67,7 +73,7 @@ def pure_level(report, tier, prefix="C04"):
             report.add_violation(prefix + ".name-injective", {"kind": "name-pair", "a": list(other), "b": list(s)},
                                  f"{[hex(c) for c in other]} and {[hex(c) for c in s]} both get glyph name {name!r}", sig)
         names.setdefault(name, s)
-        for style in ("emoji_u", "dash"):
+        for style in ("emoji_u", "dash", "pad8", "upper", "bare_u"):
             got = codepoints.from_filename(stem(s, style))
             if tuple(got) != s:
                 report.add_violation(prefix + ".filename-roundtrip", {"kind": "filename", "seq": list(s), "style": style},
